@@ -170,7 +170,15 @@ fn check_history(
                             let mut g: Vec<(String, u64)> = l.iter().map(|m| (m.addr.clone(), m.weight)).collect();
                             g.sort();
                             let gsum: u128 = g.iter().map(|m| m.1 as u128).sum();
-                            if g != after || gsum != wsum {
+                            // a single page may be cut by the contract's page size: it must be a non-empty
+                            // (if anything follows X) initial stretch of the members after X; the paged walk is complete
+                            let good = if how == "one page" {
+                                let l0: Vec<(String, u64)> = l.iter().map(|m| (m.addr.clone(), m.weight)).collect();
+                                l0.len() <= after.len() && l0[..] == after[..l0.len()] && (after.is_empty() || !l0.is_empty())
+                            } else {
+                                g == after && gsum == wsum
+                            };
+                            if !good {
                                 out.push(Violation::new(
                                     "C09.listing_from_cursor_is_the_members_after_it",
                                     format!(
